@@ -80,6 +80,11 @@ impl Transactions {
         }
     }
 
+    #[cfg(feature = "ezk-verif")]
+    pub(crate) fn verif_len(&self) -> usize {
+        self.map.lock().len()
+    }
+
     pub(crate) fn remove_transaction(&self, key: &TsxKey) {
         self.map.lock().remove(key);
     }
